@@ -43,6 +43,7 @@ type pScript struct {
 }
 
 type pPlugin struct {
+	NoID   bool        `json:"noId"` // no id=<k> option: with empty Opts the plugin is started without any option
 	ID     string      `json:"id"`
 	Opts   [][2]string `json:"opts"` // key, value; value "\x00" = bare key
 	Script pScript     `json:"script"`
@@ -68,6 +69,42 @@ type pRecord struct {
 }
 
 func sp(s string) *string { return &s }
+
+// optString: the text after the ':' of the -p argument; nil = no ':' at all (a plugin without options)
+func (p *pPlugin) optString() *string {
+	var opts []string
+	if !p.NoID {
+		opts = append(opts, "id="+p.ID)
+	}
+	for _, kv := range p.Opts {
+		if kv[1] == "\x00" {
+			opts = append(opts, kv[0])
+		} else {
+			opts = append(opts, kv[0]+"="+kv[1])
+		}
+	}
+	if len(opts) == 0 {
+		return nil
+	}
+	s := strings.Join(opts, ",")
+	return &s
+}
+
+// wantParams: what the request of this plugin's execution must carry, from the command line alone
+func (p *pPlugin) wantParams() []string {
+	params := []string{}
+	if !p.NoID {
+		params = append(params, "id="+p.ID)
+	}
+	for _, kv := range p.Opts {
+		if kv[1] == "\x00" {
+			params = append(params, kv[0]+"=")
+		} else {
+			params = append(params, kv[0]+"="+kv[1])
+		}
+	}
+	return params
+}
 
 const marker = "@@thriftgo_insertion_point(%s)"
 
@@ -210,17 +247,18 @@ func (h *harness) runScenario(sc *scenario) (*pObserved, string, error) {
 	for _, g := range sc.Gen {
 		args = append(args, "-g", g)
 	}
-	for _, p := range sc.Plugins {
+	for i, p := range sc.Plugins {
 		scripts[p.ID] = p.Script
-		opts := []string{"id=" + p.ID}
-		for _, kv := range p.Opts {
-			if kv[1] == "\x00" {
-				opts = append(opts, kv[0])
-			} else {
-				opts = append(opts, kv[0]+"="+kv[1])
+		if p.NoID {
+			for l := range sc.Gen { // chosen by execution index: language-major order
+				scripts[fmt.Sprintf("#%d", l*len(sc.Plugins)+i)] = p.Script
 			}
 		}
-		args = append(args, "-p", "c11plugin="+h.plug+":"+strings.Join(opts, ","))
+		arg := "c11plugin=" + h.plug
+		if o := p.optString(); o != nil {
+			arg += ":" + *o
+		}
+		args = append(args, "-p", arg)
 	}
 	if sc.LimitMs >= 0 {
 		args = append(args, "--plugin-time-limit", fmt.Sprintf("%dms", sc.LimitMs))
@@ -284,14 +322,7 @@ func (h *harness) expectedRequest(sc *scenario, dir string, p *pPlugin, outDir s
 	if d, err := plugin.ParseCompactArguments(sc.Gen[len(sc.Gen)-1]); err == nil {
 		genParams = plugin.Pack(d.Options)
 	}
-	params := []string{"id=" + p.ID}
-	for _, kv := range p.Opts {
-		if kv[1] == "\x00" {
-			params = append(params, kv[0]+"=")
-		} else {
-			params = append(params, kv[0]+"="+kv[1])
-		}
-	}
+	params := p.wantParams()
 	lang := sc.Gen[len(sc.Gen)-1]
 	if i := strings.Index(lang, ":"); i >= 0 {
 		lang = lang[:i]
@@ -477,13 +508,31 @@ func (h *harness) checkScenario(sc *scenario) {
 				per[i] = fmt.Sprint(len(sc.Plugins))
 			}
 			cases = append(cases, mcase{fmt.Sprintf("gen %d %d", nLang, len(sc.Plugins)), fmt.Sprintf("ok %d %s", nLang, strings.Join(per, " "))})
-			for i, rec := range obs.records {
-				want := "id=" + sc.Plugins[i%len(sc.Plugins)].ID
-				if len(rec.Params) == 0 || rec.Params[0] != want {
-					fail("plugin parameters with several -g", want, rec.Params)
-				}
-			}
 		}
+	}
+	// every execution (language-major order) carries exactly the options of its own -p argument
+	if !anyFault && len(obs.records) == nLang*len(sc.Plugins) {
+		op := fmt.Sprintf("par %d %d", nLang, len(sc.Plugins))
+		for i := range sc.Plugins {
+			arg := "p"
+			if o := sc.Plugins[i].optString(); o != nil {
+				arg += ":" + *o
+			}
+			op += " " + vl.Hex(arg)
+		}
+		var got []string
+		for i, rec := range obs.records {
+			want := sc.Plugins[i%len(sc.Plugins)].wantParams()
+			if strings.Join(rec.Params, "\x01") != strings.Join(want, "\x01") {
+				fail(fmt.Sprintf("execution %d: plugin parameters are not those of its own -p argument", i), want, rec.Params)
+			}
+			hx := make([]string, len(rec.Params))
+			for j, x := range rec.Params {
+				hx[j] = vl.Hex(x)
+			}
+			got = append(got, strings.TrimSpace(fmt.Sprintf("%d %s", len(rec.Params), strings.Join(hx, " "))))
+		}
+		cases = append(cases, mcase{op, "ok " + strings.Join(got, " | ")})
 	}
 	h.out.Stats["process:plugin-executions"] += len(obs.records)
 }
@@ -595,6 +644,16 @@ func (h *harness) catalogue() []*scenario {
 		s.Plugins = []pPlugin{{ID: "p0", Opts: [][2]string{{"first", "1"}}, Script: pScript{Files: okFiles("p0"), Warnings: []string{"C11W-p0"}}},
 			{ID: "p1", Opts: [][2]string{{"second", "\x00"}, {"k", ""}}, Script: pScript{Files: okFiles("p1"), Warnings: []string{"C11W-p1"}}}}
 	})
+	add("optionless-plugin-after-plugin-with-options", func(s *scenario) {
+		s.Plugins = []pPlugin{{ID: "p0", Opts: [][2]string{{"alpha", "1"}, {"beta", "\x00"}}, Script: pScript{Warnings: []string{"C11W-p0"}}},
+			{ID: "p1", NoID: true, Script: pScript{Files: okFiles("p1")}},
+			{ID: "p2", Opts: [][2]string{{"gamma", "3"}}, Script: pScript{}}}
+	})
+	add("optionless-plugin-second-language", func(s *scenario) {
+		s.Gen = []string{"go", "go:gen_setter"}
+		s.Plugins = []pPlugin{{ID: "p0", NoID: true, Script: pScript{}},
+			{ID: "p1", Opts: [][2]string{{"x", "1"}}, Script: pScript{Files: okFiles("p1")}}}
+	})
 	add("first-plugin-fails-second-not-run", func(s *scenario) {
 		s.Plugins = []pPlugin{{ID: "p0", Script: pScript{Exit: 1}}, {ID: "p1", Script: pScript{Files: okFiles("p1")}}}
 	})
@@ -634,13 +693,16 @@ func (h *harness) randomScenario(i int) *scenario {
 		s.Gen = []string{"go:" + r.Pick([]string{"gen_setter", "naming_style=golint", "json_enum_as_text,gen_deep_equal", "keep_unknown_fields="})}
 	}
 	n := 1
-	if r.Chance(30) {
-		n = 2
+	if r.Chance(40) {
+		n = 2 + r.Intn(2)
 	}
 	if i%8 == 0 { // a run into the time limit (slow: one in eight), alone so that nothing else races the 1 s limit
 		s.LimitMs = 1000
 		s.Plugins = []pPlugin{{ID: "p0", Script: pScript{Mode: "sleep", SleepMs: 40000, Files: okFiles("p0")}}}
 		return s
+	}
+	if r.Chance(20) {
+		s.Gen = append(s.Gen, "go:gen_setter") // a second target language: every plugin runs once more
 	}
 	for k := 0; k < n; k++ {
 		id := fmt.Sprintf("p%d", k)
@@ -681,7 +743,14 @@ func (h *harness) randomScenario(i int) *scenario {
 				opts = append(opts, [2]string{key, r.Pick([]string{"", "1", "a=b", "c:d", "/p q", "ü"})})
 			}
 		}
-		s.Plugins = append(s.Plugins, pPlugin{ID: id, Opts: opts, Script: sc})
+		pl := pPlugin{ID: id, Opts: opts, Script: sc}
+		if r.Chance(35) {
+			pl.NoID = true
+			if r.Chance(60) {
+				pl.Opts = nil // started without any option
+			}
+		}
+		s.Plugins = append(s.Plugins, pl)
 	}
 	return s
 }
